@@ -286,9 +286,9 @@ Step(e) ==
      /\ vBuf' = EmptyBuf
   ELSE IF e.op = "resolve" THEN
      /\ vBad' = vBad \cup {<<vL, t>> : t \in Verdict(e)}
-     /\ vZone' = IF Has(e.r, "ok") THEN MkZone(e.r.ok.zone) ELSE vZone
+     /\ vZone' = IF Has(e.r, "ok") THEN MkZone(e.r.ok.zone) ELSE IF Has(e, "g") THEN UtcZone ELSE vZone
      /\ vInfo' = vInfo
-     /\ vBuf' = vBuf
+     /\ vBuf' = IF Has(e, "g") THEN EmptyBuf ELSE vBuf           \* a group mark opens a new client session: no zone yet, an empty buffer
   ELSE IF e.op = "fixedzone" THEN
      /\ vBad' = vBad \cup {<<vL, t>> : t \in Verdict(e)}
      /\ vZone' = IF Has(e.r, "ok") THEN MkZone(e.r.ok.zone) ELSE UtcZone
